@@ -99,10 +99,12 @@ CHECKS = {
         'point, every text, start offset and value of fullparse, the model of _run\'s tail and _finalize_parse_info returns the '
         'matched value (spans finalised) / raises PartialParseError with that value and last_position.index = end of match / '
         'raises ParseError exactly as the specification\'s match dictates, and nothing else (derived from the refinement '
-        'theorem; finalisation is total, including zero-width objects and the empty text). Tied to /repo by correspondence '
+        'theorem; finalisation is total, including zero-width objects and the empty text). C08_shift_law (Shift.v): parsing text '
+        'from offset k equals parsing text[k:] from 0 with the end of the match and every span in the value shifted by k, for '
+        'every expression without Backtrack (template calls included) under the stated relation of the two regex oracles. Tied to /repo by correspondence '
         'through the public API: R.parse / C.parse of every rule and class and module-level parse, all offsets, both '
         'fullparse values, all short inputs incl. empty and multi-line, values with finalised spans compared exactly.',
-   note=TB + 'The pos=k vs text[k:] shift law is checked differentially only so far (no theorem yet); inline Python is assumed not to raise.',
+   note=TB + 'The shift law is proved on the specification (hence, by refinement, on the expression machine) and compared differentially on the implementation; the line/column part of a shifted position is covered by the C09 theorems; derived grammars as entry points are covered by a three-outcome consistency stream (both fullparse values must tell the same story); inline Python is assumed not to raise.',
    technique='Coq proof (three-outcomes theorem from the refinement theorem) + differential correspondence through the public API',
    ref='DESIGN.md §6 C08'),
  'C10': dict(
